@@ -483,6 +483,13 @@ impl<'a> Exec<'a> {
                 let w = self.working.as_mut().unwrap();
                 let existing: Vec<_> = w.get(name).and_then(|n| n.rrsets.get(&key.1)).map(|r| r.data().to_vec()).unwrap_or_default();
                 let mut r = Rrset::new(rtype, Ttl::from_secs(TTLS[*ttl as usize % TTLS.len()]));
+                if add && existing.contains(&data) {
+                    // RFC 5936 §2.2 / RFC 2181 §5: a record that is already in the
+                    // RRset is ignored (library behaviour since the repair
+                    // "ZoneUpdater ignores a record that is already present")
+                    self.ctx.class("updater-add-duplicate-ignored");
+                    return;
+                }
                 if add {
                     if self.removed_in_batch.contains(&key) {
                         self.ctx.class("update-after-remove-in-one-version");
